@@ -62,6 +62,7 @@ type Run struct {
 	known    map[string]string // signature -> what
 	engineEr []string
 	notes    []string
+	capped   bool
 }
 
 type knownFile struct {
@@ -130,6 +131,14 @@ func (r *Run) Note(s string) {
 func (r *Run) EngineError(msg string) {
 	r.mu.Lock()
 	defer r.mu.Unlock()
+	// A vacuity guard only means something when the space was walked to its end: on a
+	// run cut by its time budget (slow or loaded machine) it is a capped run, reported
+	// as exhaustive:false with the guard's text as an observation, never as an alarm.
+	if strings.HasPrefix(msg, "vacuous") && time.Since(r.start) > r.budget {
+		r.capped = true
+		r.notes = append(r.notes, "time budget reached before this guard could be met: "+msg)
+		return
+	}
 	if len(r.engineEr) < 20 {
 		r.engineEr = append(r.engineEr, msg)
 	}
@@ -198,6 +207,10 @@ func (r *Run) Finish(cov Coverage, assumptions []string) int {
 	if len(r.engineEr) > 0 {
 		cov["engine_errors"] = r.engineEr
 		cov["exhaustive"] = false
+	}
+	if r.capped {
+		cov["exhaustive"] = false
+		cov["capped_by_time_budget"] = true
 	}
 	out := map[string]any{
 		"property_id": r.ID,
